@@ -120,8 +120,9 @@ def check_C06(tier, seed):
 def check_C15(tier, seed):
     v = Verdict("C15", tier, seed)
     exe = build_driver("asan")
-    for c in cfgs(tier, ["comments_quick.cfg", "comments_long.cfg", "comments_list.cfg", "comments_star.cfg"], ["comments_thorough.cfg"]):
-        res = tlc_parse(v, c, INV_LINES)
+    for c in cfgs(tier, ["comments_quick.cfg", "comments_long.cfg", "comments_list.cfg", "comments_star.cfg", "ignorecmt_small.cfg"], ["comments_thorough.cfg"]):
+        # (ignorecmt_small: comments next to discarded undeclared items, annotation support on)
+        res = tlc_parse(v, c, INV_IGNORE if "ignorecmt" in c else INV_LINES)
         if "long" in c or "list" in c or "star" in c:
             # annotations next to long quoted values: only the runs with annotation support on matter here
             res.behaviours = [b for b in res.behaviours if b["pcfg"]["comments"]]
@@ -139,7 +140,7 @@ def check_C15(tier, seed):
 def check_C12(tier, seed):
     v = Verdict("C12", tier, seed)
     exe = build_driver("asan")
-    for c in cfgs(tier, ["ignore_quick.cfg", "ignore_kv.cfg", "ignore_two.cfg", "ignore_dep.cfg"], ["ignore_comments.cfg", "ignore_thorough.cfg"]):
+    for c in cfgs(tier, ["ignore_quick.cfg", "ignore_kv.cfg", "ignore_two.cfg", "ignore_dep.cfg", "ignore_nocaseopt.cfg", "ignorecmt_small.cfg"], ["ignore_comments.cfg", "ignore_thorough.cfg"]):
         res = tlc_parse(v, c, INV_IGNORE)
         if c == "ignore_two.cfg":
             res.behaviours = [b for b in res.behaviours if len(b["parses"]) == 2]
